@@ -777,7 +777,12 @@ SETCONST_EDITS = {
     'qpos_spring': ('qpos_spring',),
     'body_gravcomp': ('body_gravcomp',),
     'actuator_gear': ('actuator_gear',),
+    # pose of a geom attached to the WORLD body (no inertia depends on it).  simulation.rst lists geom_pos/geom_quat as
+    # "Unsafe" because the BVH is not rebuilt: the bvh_* arrays are therefore not judged for this edit, everything else
+    # that mj_setConst derives from the geom pose (geom_sameframe) is.
+    'geom_pos_quat': ('geom_pos', 'geom_quat'),
 }
+SETCONST_EXTRA_SKIP = {'geom_pos_quat': {'bvh_aabb', 'bvh_nodeid', 'bvh_child', 'bvh_depth'}}
 
 
 @st.composite
@@ -798,6 +803,7 @@ def setconst_case(draw):
   if model['actuators']:
     kinds += ['actuator_gear'] * 2
   kinds += ['body_mass_inertia', 'body_ipos_iquat'] * 2
+  kinds += ['geom_pos_quat'] * 2
   rot = d(st.integers(0, 2 ** 31 - 1))      # rotation defeats Hypothesis' preference for the first list entries
   kind = kinds[(d(st.integers(0, len(kinds) - 1)) + rot) % len(kinds)]
   edited = gr._copy(model)
@@ -823,6 +829,20 @@ def setconst_case(draw):
       if d(st.booleans()):
         I['quat'] = gr.draw_quat(d)
     what = b['name']
+  elif kind == 'geom_pos_quat':
+    poses = [([0.0, 0.0, 0.0], [1.0, 0.0, 0.0, 0.0]),                        # same frame as the body
+             (gr._vec(d, -0.3, 0.3), [1.0, 0.0, 0.0, 0.0]),                  # same orientation only
+             (gr._vec(d, -0.3, 0.3), gr.draw_quat(d)), ([0.0, 0.0, 0.0], gr.draw_quat(d))]
+    i0 = d(st.integers(0, len(poses) - 1))
+    i1 = (i0 + 1 + d(st.integers(0, len(poses) - 2))) % len(poses)
+    for m_, (pp, qq) in ((model, poses[i0]), (edited, poses[i1])):
+      wg = [x for x in m_['world'] if x['k'] == 'geom']
+      if not wg:
+        g = gr.draw_geom(d, 'gw') if m_ is model else gr._copy([x for x in model['world'] if x['k'] == 'geom'][0])
+        m_['world'].insert(0, g)
+        wg = [g]
+      wg[0]['pos'], wg[0]['quat'] = list(pp), list(qq)
+    what = [x for x in edited['world'] if x['k'] == 'geom'][0]['name']
   elif kind == 'body_pos_quat':
     names = [b['name'] for b in moving]
     pick = names[d(st.integers(0, len(names) - 1))]
@@ -898,7 +918,7 @@ def check_setconst(ck, lib, case):
   before = {f: getattr(m1, f).copy() for f in SETCONST_KNOWN}
   lib.mj_setConst(m1, d)            # MjError here = violation (documented-safe edit rejected)
   labels = ['setconst:' + case['kind'], 'setconst:changed' if changed else 'setconst:noop']
-  diffs = modelcmp.compare(lib, m1, m2, mode='exact', skip=SETCONST_SKIP)
+  diffs = modelcmp.compare(lib, m1, m2, mode='exact', skip=SETCONST_SKIP | SETCONST_EXTRA_SKIP.get(case['kind'], set()))
   # known findings: a derived array that mj_setConst leaves completely untouched although the recompile changes it
   for df in list(diffs):
     kn = SETCONST_KNOWN.get(df.field)
@@ -911,7 +931,8 @@ def check_setconst(ck, lib, case):
                    dict(check='setconst', case=case), bucket='setconst-' + df.field, fingerprint=kn[1])
   if diffs:
     # not bit-identical: still equal within the derived tolerance? (then it is only a different rounding path)
-    skip = SETCONST_SKIP | set(k for k in SETCONST_KNOWN if any(l.startswith('setconst:' + k) for l in labels))
+    skip = SETCONST_SKIP | SETCONST_EXTRA_SKIP.get(case['kind'], set()) | set(
+        k for k in SETCONST_KNOWN if any(l.startswith('setconst:' + k) for l in labels))
     loose = modelcmp.compare(lib, m1, m2, mode='rel', rtol=TOL_DERIVED, atol=TOL_DERIVED, skip=skip)
     if loose:
       fail('mj_setConst after editing %s of %r differs from recompiling the edited XML: %s' % (
